@@ -23,7 +23,7 @@ pub fn prop() -> Prop {
     Prop {
         id: "C10",
         level: "exploration",
-        rule: "proptest tapes decoding to a framebuffer configuration (7 raw widths x 2 data orders x sizes 9x3, 5x2, 8x2, 1x1 -- rows ending on and off a byte boundary -- and, one case in 25, 300x2 with exact N or 2x300 with one spare byte, one case in 25 97x5 with two spare bytes and shapes / fills / images as wide as the framebuffer, and, one case in 200, 65540x1 or 1x65540 with at most 3 operations and, for two sizes, N = buffer_size + 3) and a history of 1..=24 operations from {set_pixel, draw_iter with several pixels, fill_solid, clear, draw a styled rectangle/circle/line/triangle, draw a raw image} with points inside and up to 3 pixels outside every edge and also far outside (i32 extremes). Oracle (model-based): a last-write map; after every operation pixel(p) == model for every p in the box plus a margin (zero colour if never written, None outside), data() equals the byte image computed from the model by an independent writer of the documented ImageRaw layout (so writes outside change no byte and surplus bytes stay 0), as_image() has the framebuffer's size, as_image().pixel == pixel, and drawing as_image() onto a recording target reproduces the model. Non-trivial: at least two writes landed at different x modulo the pixels per byte and one written pixel was overwritten with a different colour.",
+        rule: "proptest tapes decoding to a framebuffer configuration (7 raw widths x 2 data orders x sizes 9x3, 5x2, 8x2, 1x1 -- rows ending on and off a byte boundary -- and, one case in 25, 300x2 with exact N or 2x300 with one spare byte, one case in 25 97x5 with two spare bytes and shapes / fills / images as wide as the framebuffer, one case in 25 16x24 (rows of whole bytes at every depth), stripe patterns over the full height, and, one case in 200, 65540x1 or 1x65540 with at most 3 operations and, for two sizes, N = buffer_size + 3) and a history of 1..=24 operations from {set_pixel, draw_iter with several pixels, fill_solid, clear, draw a styled rectangle/circle/line/triangle, draw a raw image} with points inside and up to 3 pixels outside every edge and also far outside (i32 extremes). Oracle (model-based): a last-write map; after every operation pixel(p) == model for every p in the box plus a margin (zero colour if never written, None outside), data() equals the byte image computed from the model by an independent writer of the documented ImageRaw layout (so writes outside change no byte and surplus bytes stay 0), as_image() has the framebuffer's size, as_image().pixel == pixel, and drawing as_image() onto a recording target reproduces the model. Non-trivial: at least two writes landed at different x modulo the pixels per byte and one written pixel was overwritten with a different colour.",
         assumptions: vec![
             "framebuffer sizes are const generics, so a fixed list of sizes is instantiated",
             "the effect of a drawable on the model is taken from drawing it onto the unbounded recording target (pinned by C01) and keeping the points inside the framebuffer",
@@ -92,7 +92,8 @@ fn histories(d: &mut Dec, cx: &mut Cx) -> Res {
     let combo = d.u(0, 13);
     // sizes 0..=5 equally likely; one case in 25 uses a 300x2 or a 2x300 framebuffer (byte offsets and
     // row numbers beyond 255)
-    let size_sel = { let k = d.u(0, 49); if k >= 48 { 6 + (k - 48) } else if k >= 46 { 10 } else { k % 6 } };
+    let size_sel = { let k = d.u(0, 49); if k >= 48 { 6 + (k - 48) } else if k >= 46 { 10 } else if k >= 44 { 11 } else { k % 6 } };
+    // (k = 44, 45: 16x24, rows of whole bytes at every depth)
     // (k = 46, 47: a 97x5 framebuffer with shapes, fills and images as wide as the framebuffer — row runs of
     // 60..100 pixels, between the tiny sizes and the 300-px strips)
     // auxiliary words 5 and 6: one case in 200 uses a 65540x1 or 1x65540 framebuffer (coordinates, byte
@@ -112,6 +113,7 @@ fn histories(d: &mut Dec, cx: &mut Cx) -> Res {
                 8 => run::<$c, Framebuffer<$c, $r, $o, 65540, 1, { bufsize(65540, 1, $bpp) }>>(d, cx, $bpp, be, 65540, 1, 0),
                 9 => run::<$c, Framebuffer<$c, $r, $o, 1, 65540, { bufsize(1, 65540, $bpp) }>>(d, cx, $bpp, be, 1, 65540, 0),
                 10 => run::<$c, Framebuffer<$c, $r, $o, 97, 5, { bufsize(97, 5, $bpp) + 2 }>>(d, cx, $bpp, be, 97, 5, 2),
+                11 => run::<$c, Framebuffer<$c, $r, $o, 16, 24, { bufsize(16, 24, $bpp) }>>(d, cx, $bpp, be, 16, 24, 0),
                 _ => run::<$c, Framebuffer<$c, $r, $o, 1, 1, { bufsize(1, 1, $bpp) }>>(d, cx, $bpp, be, 1, 1, 0),
             }
         };
@@ -232,6 +234,25 @@ where
                 fb.draw_iter(px.iter().copied()).unwrap();
                 for Pixel(p, c) in px {
                     apply(&mut model, p, c, &mut xs_mod, &mut overwritten);
+                }
+            }
+            5 if !huge && d.derived(0x57a1 + step as u64, 4) == 0 => {
+                // a test pattern: vertical stripes over the full height (every `period`-th column from x0), the
+                // content that makes every byte of a sub-byte framebuffer equal without making the pixels equal
+                let period = [2, 4, 8, 3][d.derived(0x57a2 + step as u64, 4) as usize];
+                let x0 = d.derived(0x57a3 + step as u64, period as u32) as i32;
+                let (c, v) = color::<C>(d, bpp);
+                if want {
+                    log.push(format!("stripes(every {} columns from {}, raw {:#x})", period, x0, v));
+                }
+                let mut x = x0;
+                while x < w {
+                    let area = Rectangle::new(Point::new(x, 0), Size::new(1, h as u32));
+                    fb.fill_solid(&area, c).unwrap();
+                    for p in area.points() {
+                        apply(&mut model, p, c, &mut xs_mod, &mut overwritten);
+                    }
+                    x += period;
                 }
             }
             5 => {
